@@ -6,7 +6,7 @@ A *family spec* (JSON-able) describes one fresh provider hierarchy::
      'default': [alias, {param: value}] | None,   # ``default=`` of the first root (Meta.__call__)
      'paths': {'plug': 'Root', 'ext': 'Mid0'},    # search-path sub-package -> class of base.py declaring it (path=[...])
      'ghost': bool,                         # additionally declare a search path that does not exist (explicit preload)
-     'classes': [{'name', 'module', 'parent', 'abstract', 'alias', 'nested'}, ...]}
+     'classes': [{'name', 'module', 'parent', 'abstract', 'alias', 'nested'}, ...]}   # abstract: False | True | 'inner'
 
 ``classes`` lists the roots first (``parent`` None, ``module`` 'base'), parents always precede children.  Modules are
 relative to the family package; 'base' holds the roots (and optionally abstract intermediates), every other module
@@ -119,7 +119,9 @@ def class_source(spec, cls, local):
     body = []
     if cls['parent'] is None:
         body.append('def __init__(self, **kw):\n    self.kw = kw')
-    if cls['abstract']:
+    if cls['abstract'] == 'inner':  # abstract only through an abstract inner class (the way io.Sink is through its Writer)
+        body.append('class Part(abc.ABC):\n    @abc.abstractmethod\n    def part(self):\n        """abstract"""')
+    elif cls['abstract']:
         body.append(f'@abc.abstractmethod\ndef need_{cls["name"]}(self):\n    """abstract"""')
     else:
         for anc in chain(spec, cls['name'])[1:]:
